@@ -211,6 +211,18 @@ func runC15(c *Ctx, idx int) {
 		ms.Genes[i].En = r.Intn(4) != 0
 	}
 	ms.Id = 77
+	if r.Intn(3) == 0 && len(ms.Nodes) > 3 {
+		// the node list in an order of its own, as the crossovers leave it when a module brings nodes along (they are appended) or
+		// as a hand-written file lists it
+		i, j := r.Intn(len(ms.Nodes)), r.Intn(len(ms.Nodes))
+		nd := ms.Nodes[i]
+		rest := append(append([]SnapNode{}, ms.Nodes[:i]...), ms.Nodes[i+1:]...)
+		if j > len(rest) {
+			j = len(rest)
+		}
+		ms.Nodes = append(append(append([]SnapNode{}, rest[:j]...), nd), rest[j:]...)
+		c.Count("modules.genome_with_node_list_in_an_order_of_its_own", 1)
+	}
 	if !c15Genome(c, buildFromSnap(ms), ms, genetics.YAMLGenomeEncoding, "yaml_modular") {
 		return
 	}
